@@ -118,6 +118,7 @@ class Frame:
         self._ctrl = None
         self._live = None
         self._live_busy = False
+        self._reenter = {}
 
     # ---- keys ---------------------------------------------------------------
     def site(self, bb):
@@ -205,7 +206,20 @@ class Frame:
             return self.memo[l]
         key = self.lkey(l)
         if l in self.inprog:
-            return ("rec", key)
+            # cut cycles only at merge points (several definitions / projected writes); a single-definition
+            # temporary met again is re-evaluated so that the cut lands on the loop-carried variable itself
+            merge = (len(self.defs.get(l, ())) + (1 if l in self.pdefs else 0) + (1 if 1 <= l <= self.body.argc else 0)) > 1
+            depth = self._reenter.get(l, 0)
+            if merge or depth >= 2 or not self.defs.get(l):
+                return ("rec", key)
+            self._reenter[l] = depth + 1
+            try:
+                (kind, bi, si) = self.defs[l][0]
+                if kind == "rv":
+                    return self.rvalue_term(self.body.blocks[bi]["s"][si]["r"])
+                return ("rec", key)
+            finally:
+                self._reenter[l] = depth
         # parameters
         if 1 <= l <= self.body.argc and l not in self.defs:
             if self.env is not None and l in self.env:
@@ -364,7 +378,20 @@ class Frame:
         if tag == "array" and len(set(t[1])) == 1:
             return t[1][0]
         if tag == "from_fn":
-            return self.closure_ret(t[1], [i], site_hint=t[2] if len(t) > 2 else None)
+            r = self.closure_ret(t[1], [i], site_hint=t[2] if len(t) > 2 else None)
+            return ("idx", t, i) if _generative(r, self._closure_path(t[1]), self.ev.prog.bodies) else r
+        if tag == "map":
+            r = self.closure_ret(t[2], [self.index(t[1], i)], site_hint=t[3] if len(t) > 3 else None)
+            # a closure that creates something fresh per call (a virtual target) must not be applied per index:
+            # all elements would collapse into its single call site
+            return ("idx", t, i) if _generative(r, self._closure_path(t[2]), self.ev.prog.bodies) else r
+        if tag == "take" or tag == "rev":
+            return self.index(t[1], i)
+        if tag == "adt" and t[1].endswith("ops::range::Range"):
+            d = dict(t[3])
+            st = d.get("start")
+            if st is not None:
+                return i if (is_const(st) and st[1] == 0) else fold_bin("Add", st, i)
         if tag == "upd":
             hits = [v for (proj, v) in t[3] if proj and proj[0][0] == "i"]
             base = self.index(t[2], i) if t[2] is not None else None
@@ -373,6 +400,12 @@ class Frame:
                 return ms[0]
             return ("phi", t[1] + "[]", tuple(ms))
         return ("idx", t, i)
+
+    def _closure_path(self, clos):
+        if isinstance(clos, tuple) and clos and clos[0] == "closure":
+            cb = self.ev.prog.bodies.get(clos[1])
+            return cb.path if cb is not None else None
+        return None
 
     def elem(self, it):
         tag = it[0] if isinstance(it, tuple) and it else None
@@ -384,6 +417,9 @@ class Frame:
             return self.closure_ret(it[2], [self.elem(it[1])], site_hint=it[3] if len(it) > 3 else None)
         if tag in ("rev",):
             return self.elem(it[1])
+        if tag in ("take", "skip") and isinstance(it[1], tuple) and it[1] and it[1][0] == "map":
+            m = it[1]
+            return self.closure_ret(m[2], [self.elem((tag, m[1], it[2]))], site_hint=m[3] if len(m) > 3 else None)
         return ("elem", it)
 
     def operand_term(self, op):
@@ -398,6 +434,11 @@ class Frame:
                 return ("cfn", k["fn"])
             if k.get("ty") == "()":
                 return ("unit",)
+            if "cparam" in k:
+                cg = self.env.get("cga") if self.env else None
+                if cg and k.get("cparam_name_index") is not None:
+                    pass
+                return ("cparam", k["cparam"], k.get("cparam_index"))
             if "def" in k:
                 return ("cdef", k["def"])
             return ("unk", "const:" + k.get("ty", "?"))
@@ -704,6 +745,25 @@ class Frame:
         return [self.elem(recv)]
 
 
+def _generative(t, closure_path, bodies=None):
+    """does the closure create something fresh per call (a virtual target, a container) in its own body?"""
+    if closure_path is None:
+        return False
+    mark = closure_path + "@bb"
+    for s in walk(t):
+        if s and s[0] == "call" and len(s) == 5 and mark in s[1] and (
+                s[2].startswith("cb.add_virtual") or s[2].endswith(("Vec::<T>::new", "Vec::<T>::with_capacity"))):
+            return True
+        if s and s[0] in ("from_fn", "map") and len(s) > 2 and isinstance(s[-1], str) and mark in s[-1] and bodies is not None:
+            # a nested generator built inside the closure: generative if the inner closure body creates targets
+            inner = s[1] if s[0] == "from_fn" else s[2]
+            if isinstance(inner, tuple) and inner and inner[0] == "closure":
+                ib = bodies.get(inner[1])
+                if ib is not None and any((t.get("name") or "").startswith("add_virtual") for _, t in ib.calls()):
+                    return True
+    return False
+
+
 def fold_bin(op, a, b):
     if is_const(a) and is_const(b):
         x, y = a[1], b[1]
@@ -869,6 +929,6 @@ def contents(effects, container):
                     out.append((k2, t2, e))
             else:
                 out.append(("one", arg, e))
-        elif nm in MUTATORS:
+        elif nm in MUTATORS and not (e.path or "").startswith(("core::iter", "<core::iter", "core::option", "core::result")) and e.raw.get("trait") != "core::iter::traits::iterator::Iterator":
             out.append(("mutate:" + nm, None, e))
     return out
